@@ -362,6 +362,11 @@ func (doc *Document) DeleteNode(node Node) (didDelete bool) {
 func (doc *Document) Warnings() (warnings Warnings) {
 	context := WarningContext{}
 
+	// Filter is only used to visit every node. The copies it makes must not end
+	// up in this document (it registers every family it copies with the
+	// document it is given).
+	scratch := NewDocument()
+
 	for _, node := range doc.nodes {
 		if individual, ok := node.(*IndividualNode); ok {
 			context.Individual = individual
@@ -373,7 +378,7 @@ func (doc *Document) Warnings() (warnings Warnings) {
 			context.Family = family
 		}
 
-		Filter(node, doc, func(node Node) (newNode Node, traverseChildren bool) {
+		Filter(node, scratch, func(node Node) (newNode Node, traverseChildren bool) {
 			if warner, ok := node.(Warner); ok {
 				for _, warning := range warner.Warnings() {
 					warning.SetContext(context)
